@@ -39,6 +39,10 @@ pub struct Sc {
     pub hash_backend: bool,
     pub decode_hash_backend: bool,
     pub form: Form,
+    /// file form: what is at the target path before write_graph runs: 0 nothing, 1 a longer
+    /// file of garbage, 2 a longer valid qgraph file (of another diagram)
+    #[serde(default)]
+    pub pre: u8,
 }
 
 pub struct C13;
@@ -276,6 +280,24 @@ impl C13 {
                     Fault::OutNoDir => "out_nodir",
                     Fault::OutIsDir => "out_is_dir",
                 };
+                if matches!(fault, Fault::None | Fault::OutEfbig(_)) && sc.pre > 0 {
+                    // something longer is already there: write_graph must replace it entirely
+                    let filler = if sc.pre == 1 {
+                        "#".repeat(40_000)
+                    } else {
+                        let mut big = GSpec::empty();
+                        for i in 0..300 {
+                            let v = big.add(1, 1, 4);
+                            if i > 0 {
+                                big.edges.push((v - 1, v, i % 2 == 0));
+                            }
+                        }
+                        let bg: quizx::vec_graph::Graph = big.build();
+                        quizx::json::encode_graph(&bg).unwrap_or_default()
+                    };
+                    std::fs::write(&path, filler).expect("scratch write");
+                    ctx.out.probe("file_preexisting_longer_content");
+                }
                 // result of the write: Ok / Err / panic
                 let wrote: Result<(), String> = if let Fault::OutEfbig(limit) = fault {
                     ctx.out.engine = "child_process";
@@ -497,7 +519,8 @@ impl Property for C13 {
     }
 
     fn generate(&self, d: &mut Decider, _tier: Tier, sub: &str) -> Sc {
-        let g = gen::json_diagram(d);
+        let large = (sub == "file" || sub == "file_torn" || sub == "string") && d.coin("large", 1, if sub == "string" { 40 } else { 6 });
+        let g = gen::json_diagram_sized(d, large);
         let form = match sub {
             "string" => Form::Str(2 + d.choose("ndec", 3)),
             "serde" => Form::Serde,
@@ -507,9 +530,9 @@ impl Property for C13 {
                 4 => Fault::OutNoDir,
                 _ => Fault::OutIsDir,
             }),
-            _ => Form::File(Fault::OutEfbig(d.choose("efbig", 3000) as u64)),
+            _ => Form::File(Fault::OutEfbig(d.choose("efbig", if large { 30_000 } else { 3000 }) as u64)),
         };
-        Sc { g, hash_backend: d.coin("hb", 1, 2), decode_hash_backend: d.coin("dhb", 1, 2), form }
+        Sc { g, hash_backend: d.coin("hb", 1, 2), decode_hash_backend: d.coin("dhb", 1, 2), form, pre: d.choose("pre", 3) as u8 }
     }
 
     fn execute(&self, sc: &Sc, _sub: &str, exec: Decider, env: &Env) -> RunOut {
@@ -525,6 +548,9 @@ impl Property for C13 {
         }
         if g.verts.iter().any(|v| v.0 == 3) {
             out.probe("has.hbox");
+        }
+        if g.verts.len() >= 40 {
+            out.probe("has.large_diagram_json_over_8k");
         }
         if g.verts.iter().any(|v| v.2 > 256) {
             out.probe("has.den_gt_256");
